@@ -112,7 +112,7 @@ def _near_limit(view, limit):
     return any(abs(n - limit) <= 1 and injected.get(j, 0) >= min(n, limit) for j, n in view.planned_total.items())
 
 
-@prop.given("soft-exact", _case(("soft",), ["default"]), quick=700, thorough=20000)
+@prop.given("soft-exact", _case(("soft",), ["default"]), quick=600, thorough=20000)
 @_survey
 async def check_soft(case, rec):
     K, shape, limit, plan, res = await _run(case)
@@ -141,7 +141,7 @@ async def check_soft(case, rec):
     rec.nontrivial(_near_limit(view, limit))
 
 
-@prop.given("fail-stop-bound", _case(("soft", "stop", "stop"), ["default"]), quick=500, thorough=15000)
+@prop.given("fail-stop-bound", _case(("soft", "stop", "stop"), ["default"]), quick=400, thorough=15000)
 @_survey
 async def check_stop(case, rec):
     K, shape, limit, plan, res = await _run(case)
@@ -161,7 +161,7 @@ async def check_stop(case, rec):
     rec.nontrivial(_near_limit(view, limit))
 
 
-@prop.given("dummy-manager", _case(("soft", "stop"), ["dummy"]), quick=300, thorough=8000)
+@prop.given("dummy-manager", _case(("soft", "stop"), ["dummy"]), quick=200, thorough=8000)
 @_survey
 async def check_dummy(case, rec):
     K, shape, limit, plan, res = await _run(case)
